@@ -251,7 +251,7 @@ def _selftest(ctx, tr, mutate):
 def run_all(ctx, prefix, runs=None, ops=8):
     """design and histories side by side (both are independent)"""
     if runs is None:
-        runs = 120 if ctx.quick() else 2500
+        runs = 120 if ctx.quick() else 5000
     with concurrent.futures.ThreadPoolExecutor(max_workers=2) as ex:
         fd = ex.submit(design, ctx)
         fh = ex.submit(histories, ctx, prefix, runs, ops)
